@@ -11,6 +11,22 @@ claims of the statement: constant reproduced, output between the contributing
 samples, Savitzky-Golay reproduces cubics, linearity / superposition, row
 independence (bit for bit against single-row and permuted calls), compiled ==
 interpreted.
+
+Two further families under every case:
+
+* spectrum dtype.  "All non-negative spectra" includes spectra stored as
+  int64 / int32 / float32.  A small stack of integer-valued rows (every value
+  exactly representable in all four types) is smoothed as float64 (judged
+  against the superposition of the impulse responses, i.e. against the
+  reference matrix) and then as each other dtype; the result must be the
+  float64 one (rtol 1e-12: the operator averages the *values*), and
+  op(2 s) == 2 op(s) must hold in every dtype.
+* grid sequences.  Roots of kind "grid-sequence" run the complete oracle for
+  one grid and then, in the same process, for a second grid that shares the
+  number of bins and the first bin but not the spacing (same n, other dt; or
+  n and n+1 with n even), in both orders, for every operator.  Anything the
+  module remembers from the first grid and wrongly applies to the second is
+  exposed deterministically, whatever the distribution of roots over workers.
 """
 import math
 
@@ -33,6 +49,16 @@ N_EXTRA = 7
 
 GRIDS = {"quick": [(8, 0.01), (16, 0.01)],
          "thorough": [(n, dt) for n in (8, 9, 16, 33, 64) for dt in (0.01, 0.05)]}
+
+# unordered grid pairs with equal bin count and equal first bin (0 Hz) but different
+# spacing; every pair becomes two "grid-sequence" roots (both orders) per operator/bandwidth
+_PAIRS = {"quick": [((8, 0.01), (8, 0.05)), ((16, 0.01), (16, 0.05)), ((8, 0.01), (9, 0.01))],
+          "thorough": [((n, 0.01), (n, 0.05)) for n in (8, 9, 16, 33, 64)]
+                      + [((n, dt), (n + 1, dt)) for n in (8, 16, 64) for dt in (0.01, 0.05)]}
+SEQUENCES = {t: [[list(a), list(b)] for a, b in p] + [[list(b), list(a)] for a, b in p]
+             for t, p in _PAIRS.items()}
+
+DTYPES = ("int64", "int32", "float32")      # besides float64
 
 
 # ---------------------------------------------------------------------------
@@ -105,16 +131,30 @@ def spectrum_stack(f):
     return np.ascontiguousarray(S, dtype=float), names
 
 
+def integer_stack(nf):
+    """Non-negative integer-valued rows (values < 2**11, so they and their doubles
+    are exact in int32, int64, float32 and float64): three unit impulses, a constant,
+    a ramp, two irregular count-like rows."""
+    k = np.arange(nf, dtype=np.int64)
+    eye = np.eye(nf, dtype=np.int64)
+    rows = [eye[1], eye[nf // 2], eye[nf - 1], np.full(nf, 7, dtype=np.int64), 3 + 5 * k,
+            (k * k * k + 2 * k * k + 11) % 97 + 1, 1000 + (k * 7919) % 1013]
+    S = np.ascontiguousarray(np.vstack(rows), dtype=np.int64)
+    assert S.min() >= 0 and 2 * S.max() < 2 ** 24
+    return S
+
+
 # ---------------------------------------------------------------------------
 # executing the real code
 
-def call(op, impl, f, S, fcs, bw):
+def call(op, impl, f, S, fcs, bw, dtype="float64"):
     """Run the operator from the registry (impl 'compiled') or its interpreted
     source (impl 'interpreted': .py_func; for Savitzky-Golay the registry
     function with its inner compiled routine replaced by that routine's
-    .py_func).  Returns the array or ('raised', type name, message)."""
+    .py_func).  The spectrum is handed over as a C-contiguous array of ``dtype``.
+    Returns the array or ('raised', type name, message)."""
     fn = SM.SMOOTHING_OPERATORS[op]
-    S = np.ascontiguousarray(S, dtype=float)
+    S = np.ascontiguousarray(S, dtype=np.dtype(dtype))
     fcs = np.ascontiguousarray(fcs, dtype=float)
     try:
         with np.errstate(all="ignore"):
@@ -142,19 +182,27 @@ def warm():
     f = grid(8, 0.01)
     S, _ = spectrum_stack(f)
     fcs = np.array([12.5, 30.0])
+    Z = integer_stack(len(f))
     for op in OPS:
         call(op, "compiled", f, S, fcs, 5 if op == SG else 1.0)
         call(op, "compiled", f, S[:1], fcs[:1], 5 if op == SG else 1.0)
+        for d in DTYPES:                    # one more compiled signature per spectrum dtype
+            call(op, "compiled", f, Z, fcs, 5 if op == SG else 1.0, dtype=d)
 
 
 # ---------------------------------------------------------------------------
 # oracles
 
 class Case:
-    def __init__(self, root, vname, f, fcs, S, names, infos):
+    """One (operator, grid, bandwidth, centre vector).  ``root`` is the replayable
+    root the case lives under, ``p`` the parameters of this case (the root itself,
+    or one leg of a grid-sequence root)."""
+
+    def __init__(self, root, p, vname, f, fcs, S, names, infos):
         self.root = root
-        self.op = root["op"]
-        self.bw = root["bw"]
+        self.p = p
+        self.op = p["op"]
+        self.bw = p["bw"]
         self.vname = vname
         self.f = f
         self.fcs = fcs
@@ -162,19 +210,33 @@ class Case:
         self.names = names
         self.infos = infos
         self.nf = len(f)
+        self.in_sequence = root.get("kind") == "grid-sequence"
 
     def detail(self, impl, c=None, **kw):
-        d = dict(op=self.op, implementation=impl, n=self.root["n"], dt=self.root["dt"],
+        d = dict(op=self.op, implementation=impl, n=self.p["n"], dt=self.p["dt"],
                  bandwidth=self.bw, fc_vector=self.vname,
                  frequencies=[float(x) for x in self.f],
                  how="spectrum = hvmc.checks.c02.spectrum_stack(frequencies)[0]; "
                      "SMOOTHING_OPERATORS[op](frequencies, spectrum, np.array(fcs), bandwidth)")
+        if self.in_sequence:
+            d["grid_sequence"] = self.root["grids"]
+            d["leg"] = self.p["leg"]
+            d["sequence_note"] = ("the grids of grid_sequence were smoothed one after the other "
+                                  "in ONE process (all fc vectors, both implementations, in the "
+                                  "order of hvmc.checks.c02.run_root); this is grid number leg+1. "
+                                  "A failure that needs the earlier grid is state carried over "
+                                  "between calls")
         if c is not None:
             d["fc_index"] = int(c)
             d["fc"] = float(self.fcs[c])
             d["fcs"] = [float(x) for x in self.fcs] if len(self.fcs) <= 12 else "fc_vectors(frequencies)[fc_vector]"
         d.update(kw)
         return d
+
+    def text(self, t):
+        if self.in_sequence:
+            return t + f" [grid {self.p['leg'] + 1} of a sequence of grids smoothed in one process]"
+        return t
 
 
 def _key(case, impl, cls, oracle):
@@ -199,7 +261,7 @@ def judge(case, impl, out, ctx):
             return
         reported.add(key)
         ctx.violation(key, root, detail=case.detail(impl, c, **kw), expected=expected,
-                      observed=observed, explanation=text)
+                      observed=observed, explanation=case.text(text))
 
     if out.shape != (S.shape[0], nfc) or not np.all(np.isfinite(out)):
         report(case.vname, "shape-or-nonfinite", None, [S.shape[0], nfc], list(out.shape),
@@ -328,7 +390,7 @@ def row_independence(case, impl, out, ctx, every_row):
         if _raised(got):
             ctx.violation(_key(case, impl, case.vname, "raises"), case.root,
                           detail=case.detail(impl, rows=rows), observed=list(got),
-                          explanation="operator raised on a sub-stack of the spectra")
+                          explanation=case.text("operator raised on a sub-stack of the spectra"))
             continue
         want = out[rows]
         if not core.bitwise_equal(np.ascontiguousarray(got), np.ascontiguousarray(want)):
@@ -340,15 +402,106 @@ def row_independence(case, impl, out, ctx, every_row):
                                              differing_row_in_substack=r),
                           expected=float(want[r, c]),
                           observed=float(got[r, c]) if np.shape(got) == want.shape else list(np.shape(got)),
-                          explanation="a spectrum row smoothed inside a stack differs (bitwise) from "
-                                      "the same row smoothed alone / in another row order")
+                          explanation=case.text("a spectrum row smoothed inside a stack differs (bitwise) "
+                                                "from the same row smoothed alone / in another row order"))
 
 
-def run_case(root, vname, f, fcs, S, names, ctx, tier):
-    op, bw = root["op"], root["bw"]
+def dtype_family(case, impl, out, ctx):
+    """Integer-valued spectra handed over as float64, int64, int32, float32.
+
+    float64: equals the superposition of the impulse responses of the main call
+    (which were compared with the reference matrix).  Other dtypes: the values
+    are the same numbers, so the weight-normalised average is the same (rtol
+    1e-12), and doubling the spectrum doubles the result in every dtype."""
+    f, nf, fcs = case.f, case.nf, case.fcs
+    Z = integer_stack(nf)
+    Zf = Z.astype(float)
+    zmax = float(Z.max())
+    how = ("spectrum = hvmc.checks.c02.integer_stack(len(frequencies)).astype(spectrum_dtype) "
+           "[times 2 for the doubled call]; SMOOTHING_OPERATORS[op](frequencies, spectrum, "
+           "np.array(fcs), bandwidth)")
+
+    def run(S, dtype, what):
+        got = call(case.op, impl, f, S, fcs, case.bw, dtype=dtype)
+        ctx.count("transitions")
+        if _raised(got):
+            ctx.violation(_key(case, impl, "spectrum-" + dtype, "raises"), case.root,
+                          detail=case.detail(impl, spectrum_dtype=dtype, spectrum=what, how=how),
+                          observed=list(got),
+                          explanation=case.text(f"the operator raised on a non-negative integer-valued "
+                                                f"spectrum of dtype {dtype}"))
+            return None
+        got = np.asarray(got)
+        if got.shape != (Z.shape[0], len(fcs)) or not np.all(np.isfinite(got)):
+            ctx.violation(_key(case, impl, "spectrum-" + dtype, "shape-or-nonfinite"), case.root,
+                          detail=case.detail(impl, spectrum_dtype=dtype, spectrum=what, how=how),
+                          expected=[Z.shape[0], len(fcs)], observed=list(got.shape),
+                          explanation=case.text("output has the wrong shape or contains non-finite values"))
+            return None
+        return got.astype(float)
+
+    def first_bad(got, want, rtol, atol):
+        bad = np.abs(got - want) > atol + rtol * np.abs(want)
+        if not bad.any():
+            return None
+        r, c = [int(v[0]) for v in np.nonzero(bad)]
+        return r, c
+
+    base = run(Z, "float64", "integer_stack")
+    if base is None:
+        return
+    pred = Zf @ out[:nf]
+    ctx.count("linearity_values_compared", int(pred.size))
+    hit = first_bad(base, pred, RTOL_REF, 1e-12 * zmax)
+    if hit:
+        r, c = hit
+        ctx.violation(_key(case, impl, fc_class(f, fcs[c]), "linearity"), case.root,
+                      detail=case.detail(impl, c, spectrum_dtype="float64", spectrum_row_index=r, how=how),
+                      expected=float(pred[r, c]), observed=float(base[r, c]),
+                      explanation=case.text("smoothing a spectrum differs from the superposition of "
+                                            "the smoothed unit impulses"))
+    ctx.outcome(("Z", core.arr_digest(np.ascontiguousarray(base))))
+    for dtype in ("float64",) + DTYPES:
+        Zd = Z.astype(np.dtype(dtype))
+        Z2 = (2 * Z).astype(np.dtype(dtype))
+        if not (np.array_equal(Zd.astype(float), Zf) and np.array_equal(Z2.astype(float), 2.0 * Zf)):
+            raise AssertionError("integer_stack is not exactly representable as " + dtype)
+        got = base if dtype == "float64" else run(Zd, dtype, "integer_stack")
+        if got is None:
+            continue
+        if dtype != "float64":
+            ctx.count("dtype_values_compared", int(got.size))
+            hit = first_bad(got, base, RTOL_IMPL, 1e-15 * zmax)
+            if hit:
+                r, c = hit
+                ctx.violation(_key(case, impl, "spectrum-" + dtype, "dtype-invariance"), case.root,
+                              detail=case.detail(impl, c, spectrum_dtype=dtype, spectrum_row_index=r,
+                                                 spectrum_row=Z[r].tolist(), how=how),
+                              expected=float(base[r, c]), observed=float(got[r, c]),
+                              explanation=case.text(
+                                  f"the same non-negative integer-valued spectrum gives a different "
+                                  f"smoothed value when stored as {dtype} than when stored as float64 "
+                                  f"(the result is not the weight-normalised average of the values)"))
+        dbl = run(Z2, dtype, "2*integer_stack")
+        if dbl is None:
+            continue
+        ctx.count("dtype_linearity_values_compared", int(dbl.size))
+        hit = first_bad(dbl, 2.0 * got, RTOL_IMPL, 1e-15 * zmax)
+        if hit:
+            r, c = hit
+            ctx.violation(_key(case, impl, "spectrum-" + dtype, "dtype-linearity"), case.root,
+                          detail=case.detail(impl, c, spectrum_dtype=dtype, spectrum_row_index=r,
+                                             spectrum_row=Z[r].tolist(), how=how),
+                          expected=float(2.0 * got[r, c]), observed=float(dbl[r, c]),
+                          explanation=case.text(f"op(2 s) != 2 op(s) for an integer-valued spectrum s "
+                                                f"of dtype {dtype}"))
+
+
+def run_case(root, p, vname, f, fcs, S, names, ctx, tier):
+    op, bw = p["op"], p["bw"]
     fcs = np.array(fcs, dtype=float)
     infos = [RK.row_info(op, f, fc, bw) for fc in fcs]
-    case = Case(root, vname, f, fcs, S, names, infos)
+    case = Case(root, p, vname, f, fcs, S, names, infos)
     ctx.count("states")
 
     # statistics that show which parts of the oracle this case exercises
@@ -370,7 +523,8 @@ def run_case(root, vname, f, fcs, S, names, ctx, tier):
         if op == SG and info["certain"]:
             ctx.count("sg_centres_window_fits")
     if multi:
-        ctx.nontrivial_case((op, root["n"], root["dt"], bw, vname))
+        seq = (str(root["grids"]), p["leg"]) if case.in_sequence else ()
+        ctx.nontrivial_case((op, p["n"], p["dt"], bw, vname) + seq)
 
     outs = {}
     for impl in ("compiled", "interpreted"):
@@ -379,7 +533,7 @@ def run_case(root, vname, f, fcs, S, names, ctx, tier):
         if _raised(out):
             ctx.violation(_key(case, impl, vname, "raises"), root, detail=case.detail(impl),
                           observed=list(out),
-                          explanation="the operator raised where the reference expects values")
+                          explanation=case.text("the operator raised where the reference expects values"))
             continue
         W = judge(case, impl, out, ctx)
         if W is None:
@@ -388,9 +542,10 @@ def run_case(root, vname, f, fcs, S, names, ctx, tier):
         ctx.outcome(("W", core.arr_digest(W)))
         row_independence(case, impl, out, ctx,
                          every_row=(vname in ("grid", "off") or tier == "thorough"))
+        dtype_family(case, impl, out, ctx)
         if impl == "compiled" and len(ctx.samples) < 2 and multi and vname == "off":
             c = next(i for i, info in enumerate(infos) if sum(1 for v in info["alternatives"][0] if v) >= 2)
-            ctx.sample(dict(root=root, fc_vector=vname, fc=float(fcs[c]),
+            ctx.sample(dict(root=root, leg=p.get("leg"), fc_vector=vname, fc=float(fcs[c]),
                             recovered_row=W[c].tolist(), reference_row=infos[c]["alternatives"][0]))
     ctx.count("validated")
 
@@ -407,20 +562,22 @@ def run_case(root, vname, f, fcs, S, names, ctx, tier):
             ctx.violation(f"C02:{op}:{vname}:compiled-vs-interpreted", root,
                           detail=case.detail("both", c, spectrum_row_index=r),
                           expected=float(b[r, c]), observed=float(a[r, c]),
-                          explanation="the compiled kernel and its interpreted source (.py_func) "
-                                      "return different values")
+                          explanation=case.text("the compiled kernel and its interpreted source "
+                                                "(.py_func) return different values"))
 
 
-def run_refusal(root, vname, f, fcs, S, ctx):
+def run_refusal(root, p, vname, f, fcs, S, ctx):
     """Even Savitzky-Golay point counts must be refused with ValueError."""
     fcs = np.array(fcs, dtype=float)
     ctx.count("states")
     for impl in ("compiled", "interpreted"):
-        out = call(SG, impl, f, S, fcs, root["bw"])
+        out = call(SG, impl, f, S, fcs, p["bw"])
         ctx.count("transitions")
         tag = SG if impl == "compiled" else SG + ".py_func"
-        det = dict(op=SG, implementation=impl, n=root["n"], dt=root["dt"], bandwidth=root["bw"],
+        det = dict(op=SG, implementation=impl, n=p["n"], dt=p["dt"], bandwidth=p["bw"],
                    fc_vector=vname)
+        if root.get("kind") == "grid-sequence":
+            det.update(grid_sequence=root["grids"], leg=p["leg"])
         if not _raised(out):
             ctx.violation(f"C02:{tag}:even-bandwidth:accepted", root, detail=det,
                           expected="ValueError", observed="returned an array",
@@ -435,7 +592,7 @@ def run_refusal(root, vname, f, fcs, S, ctx):
             ctx.count("even_bandwidth_refused")
             ctx.outcome(("even", "ValueError"))
     try:
-        RK.sg_weights(root["bw"])
+        RK.sg_weights(p["bw"])
     except ValueError:
         ctx.count("validated")
 
@@ -450,26 +607,50 @@ def roots(tier, seed):
         for op in OPS:
             for i, bw in enumerate(bandwidths(op, df)):
                 out.append(dict(n=n, dt=dt, op=op, bw=bw, bw_index=i))
+    # two grids one after the other inside one root (= one process), both orders
+    for grids in SEQUENCES[tier]:
+        for op in OPS:
+            for i in range(len(bandwidths(op, 1.0))):
+                out.append(dict(kind="grid-sequence", grids=grids, op=op, bw_index=i))
     return out
 
 
-def run_root(root, ctx, tier):
-    f = grid(root["n"], root["dt"])
+def _run_grid(root, p, ctx, tier):
+    """The complete oracle for one (grid, operator, bandwidth)."""
+    f = grid(p["n"], p["dt"])
     S, names = spectrum_stack(f)
     vecs = fc_vectors(f)
-    even = root["op"] == SG and int(root["bw"]) % 2 == 0
+    even = p["op"] == SG and int(p["bw"]) % 2 == 0
     for vname in VECTOR_NAMES:
         if even:
-            run_refusal(root, vname, f, vecs[vname], S, ctx)
+            run_refusal(root, p, vname, f, vecs[vname], S, ctx)
         else:
-            run_case(root, vname, f, vecs[vname], S, names, ctx, tier)
+            run_case(root, p, vname, f, vecs[vname], S, names, ctx, tier)
+
+
+def run_root(root, ctx, tier):
+    if root.get("kind") == "grid-sequence":
+        nfs = set()
+        for leg, (n, dt) in enumerate(root["grids"]):
+            f = grid(n, dt)
+            nfs.add((len(f), float(f[0])))
+            bw = bandwidths(root["op"], float(f[1]))[root["bw_index"]]
+            p = dict(n=n, dt=dt, op=root["op"], bw=bw, bw_index=root["bw_index"], leg=leg)
+            _run_grid(root, p, ctx, tier)
+            ctx.count("sequence_legs")
+        if len(nfs) == 1:
+            ctx.count("sequences_same_size_and_first_bin")
+    else:
+        _run_grid(root, root, ctx, tier)
 
 
 NONVACUITY = ["centres_empty_window", "centres_averaging_2plus_samples", "centres_single_sample",
               "knife_edge", "centres_with_dc_in_reach", "sg_centres_window_fits",
               "even_bandwidth_refused", "matrix_rows_compared", "constant_values_compared",
               "bounds_compared", "cubic_values_compared", "linearity_values_compared",
-              "stack_calls_compared", "compiled_vs_interpreted_values"]
+              "stack_calls_compared", "compiled_vs_interpreted_values",
+              "dtype_values_compared", "dtype_linearity_values_compared",
+              "sequence_legs", "sequences_same_size_and_first_bin"]
 
 
 def finalize(ctx, tier):
